@@ -1964,7 +1964,8 @@ def run(c):
     entry_points(c, S, info, R, rb)
     extra = dimension_cases(c, S, info, R, rb)
     finish_dimensions(c, S, extra, DIMS_COMMON + ["kind:one", "kind:twin", "kind:archive", "kind:syncsave", "histories:structural_ops",
-                      "histories:integrator_switch", "histories:add_remove", "histories:explicit_synchronize", "scale:counters_ge_2^32"] + list(extra))
+                      "histories:integrator_switch", "histories:add_remove", "histories:explicit_synchronize", "scale:counters_ge_2^32", "histories:archive_gap_reset", "histories:archive_gap_remove_step",
+                      "histories:archive_gap_switch_reset_step", "histories:archive_gap_reset_step"] + list(extra))
     c.cov["histogram"] = S.hist
     c.sample({"cfg": cfgs[7], "path": "file"})
     c.sample({"cfg": cfgs[len(cfgs) // 2], "path": "pickle"})
